@@ -71,8 +71,31 @@ func validRune(c Term) Term {
 
 // fmtValue renders a value the way fmt's %v does (A-fmt).
 func (w *Worker) fmtValue(st *State, t types.Type, v Value, verb byte, depth int) StrV {
-	if depth > 6 {
+	if depth == 0 {
+		w.fmtActive = map[int]bool{}
+	}
+	if depth > 12 {
 		panic(engineErr("fmt nesting too deep"))
+	}
+	// fmt follows slices and maps recursively without cycle detection: a value that contains
+	// itself makes it recurse until the Go runtime aborts with "fatal error: stack overflow"
+	switch c := v.(type) {
+	case SliceV:
+		if c.id != 0 && c.n > 0 {
+			if w.fmtActive[c.id] {
+				w.obligation(st, "fmt-recursion-on-self-containing-value(stack-overflow)", token.NoPos, mkBool(true))
+			}
+			w.fmtActive[c.id] = true
+			defer delete(w.fmtActive, c.id)
+		}
+	case MapV:
+		if c.id != 0 {
+			if w.fmtActive[c.id] {
+				w.obligation(st, "fmt-recursion-on-self-containing-value(stack-overflow)", token.NoPos, mkBool(true))
+			}
+			w.fmtActive[c.id] = true
+			defer delete(w.fmtActive, c.id)
+		}
 	}
 	switch x := v.(type) {
 	case *Union:
@@ -603,6 +626,15 @@ func (w *Worker) intrinsic(st *State, f *Frame, x ssa.Value, callee *ssa.Functio
 				elems[j], elems[j-1] = elems[j-1], elems[j]
 			}
 		}
+	case "strings.Join":
+		out := StrV{}
+		for i, e := range st.sliceElems(args[0].(SliceV)) {
+			if i > 0 {
+				out = strCat(out, args[1].(StrV))
+			}
+			out = strCat(out, e.(StrV))
+		}
+		set(out)
 	case "strings.ToLower", "strings.ToUpper":
 		c, ok := args[0].(StrV).concrete()
 		if !ok {
